@@ -18,7 +18,7 @@ ahdr = '''(* %s -- the property's anchored source (vedirectapi/registerApi.go) t
    statements, `exact` and Print Assumptions. *)
 From Coq Require Import QArith.
 From GV Require Import Vedirect.DrvSem Gen.DrvImpl Vedirect.DrvRefine Api.ApiSem Gen.ApiImpl Api.ApiRefine
-     Api.ApiRefineTables Api.ApiProps Api.ApiValueFacts.
+     Api.ApiRefineTables Api.ApiProps Api.ApiValueFacts Api.ApiMapsRefine.
 Import ListNotations.
 Local Open Scope Z_scope.
 
@@ -271,6 +271,21 @@ Theorem %s_api_stream_product_lists : forall c id h cn v,
 Proof. exact go_stream_product_lists. Qed.
 Print Assumptions %s_api_stream_product_lists.
 '''
+A['readlist'] = '''(* ReadRegisterList of the translated source (the map-returning variant: the four collector closures over the stream):
+   the same end of the stream and driver state as the model's read_register_list, and per value kind the same map from
+   register names to values -- what the handlers of StreamRegisterList would have been given, nothing else *)
+Theorem %s_api_ReadRegisterList : forall c rl cn v, reglist_ok rl ->
+  readlist_rel (go_ReadRegisterList c tt rl (mkA (mkD v false) [] cn)) (GV.Api.Maps.read_register_list c rl cn v).
+Proof. exact go_ReadRegisterList_refines. Qed.
+Print Assumptions %s_api_ReadRegisterList.
+
+Theorem %s_api_ReadRegisterList_collects : forall c rl cn v G e s', reglist_ok rl ->
+  go_ReadRegisterList c tt rl (mkA (mkD v false) [] cn) = (DVal (G, e), s') ->
+  exists acc, G = fold_left g_put (map gpair acc) (mkRV [] [] [] []) /\\ a_out s' = map gpair acc /\\
+              snd (fst (stream_register_list c all_handlers rl cn v)) = acc.
+Proof. exact go_ReadRegisterList_collects. Qed.
+Print Assumptions %s_api_ReadRegisterList_collects.
+'''
 A['connect'] = '''(* NewRegisterApi of the translated source against the model's connect: ping, then the device id, an
    object iff both succeed and the id is a known product with a register list -- then product = id and
    registers = the list of that id; a fresh driver has never sent (clock flag true) *)
@@ -313,7 +328,7 @@ aplan = {
     'C11': ['connect'],
     'C05': ['wrapped'],
     'C09': ['num', 'text', 'enum', 'fl', 'fl_bits'],
-    'C10': ['stream'],
+    'C10': ['stream', 'readlist'],
     'C15': ['fl', 'fl_bits', 'comma'],
 }
 rhdr = '''(* %s -- the property's anchored source (veregister/registerList.go, filter.go) translated on every run into
